@@ -1346,6 +1346,14 @@ class Interp:
         if isinstance(op, ast.NotIn):
             return ops.s_not(self.contains(b, a))
         sop = CMPOPS[type(op)]
+        if type(a).__name__ == "ApproxVal" or type(b).__name__ == "ApproxVal":
+            # pytest.approx: |x - expected| <= max(rel * |expected|, abs) with rel 1e-6, abs 1e-12 by default
+            ap, x = (a, b) if type(a).__name__ == "ApproxVal" else (b, a)
+            rel = ap.rel if ap.rel is not None else Fraction(1, 10 ** 6)
+            ab = ap.abs if ap.abs is not None else Fraction(1, 10 ** 12)
+            tol = ops.smax(ops.scalar_binop("*", rel, ops.scalar_abs(ap.expected)), ab)
+            close = ops.scalar_compare("<=", ops.scalar_abs(ops.scalar_binop("-", x, ap.expected)), tol)
+            return close if sop == "==" else ops.s_not(close)
         if isinstance(a, self.pd_types) or isinstance(b, self.pd_types):
             return self.pd_compare(sop, a, b)
         if isinstance(a, Obj):
